@@ -73,3 +73,63 @@ def flatten_left(t, n):
 
 def coq_string(s):
     return '"' + s.replace('"', '""') + '"'
+
+
+def gen_eqs(sem_path=None):
+    """Regenerate coq/State/EvalRestoreEqs.v (statement level) and EvalRestoreEqsExpr.v (expression level) from the text
+    of coq/State/EvalRestoreSem.v: one unfolding equation per interpreter function, each proved by `reflexivity`.
+    Run by hand after editing the semantics:  python -c "from props import state_common as s; s.gen_eqs()" """
+    import os
+    sem_path = sem_path or os.path.join(vlib.COQ, "State", "EvalRestoreSem.v")
+    src = open(sem_path).read()
+    ARG = r'\((?:[^()]|\([^()]*(?:\([^()]*\)[^()]*)*\))*\)'
+    names = ['eval', 'evals', 'evalkw', 'ocall', 'run_beh', 'call_value', 'call_method', 'call_fun', 'assign',
+             'assigns', 'exec', 'handle', 'exec_for', 'exec_block']
+
+    def lemmas(body, helpers, blk):
+        out = []
+        for part in re.split(r'\n+(?:\(\*[^\n]*\*\)\n)?(?=with )', body):
+            part = part.strip()
+            if part.endswith("."):
+                part = part[:-1]
+            m = re.match(r'(?:Fixpoint|with) (\w+) \(fuel : nat\) ((?:%s\s*)+)\{struct fuel\}\s*:\s*A :=\n  match fuel with\n'
+                         r'  \| O => timeout\n  \| S f =>(.*)\n  end\s*$' % ARG, part, re.S)
+            assert m, part[:200]
+            name, args, b = m.groups()
+            args = ' '.join(args.split())
+            vs = []
+            for a in re.finditer(ARG, args):
+                vs += a.group(0)[1:-1].split(':', 1)[0].split()
+            for n in names:
+                b = re.sub(r'(?<![\w.])%s\b(?!_)' % n, n + '_', b)
+            for h in helpers:
+                b = re.sub(r'(?<![\w.])%s\b(?!_)' % h, h + '_', b)
+            out.append("Lemma %s_eq f %s :\n  %s_ (S f) %s =%s.\nProof. reflexivity. Qed.\n"
+                       % (name, args, name, " ".join(vs), b.rstrip()))
+        return out
+    head = ("From HyV Require Export State.EvalRestoreSem.\n\nSection Eqs.\n"
+            "Variables (P : prog) (Orc : oracle) (A : Type) (timeout : A) (stuck : string -> A).\n")
+    # statement level
+    body = src[src.index("Fixpoint exec (fuel : nat)"):src.index("End Sem.")]
+    helpers = {'truthy_k': '(truthy_k A stuck)', 'dispatch': '(dispatch A)'}
+    text = ("(* Unfolding equations of the statement-level interpreter functions, produced mechanically from the text of\n"
+            "   EvalRestoreSem.v (props/state_common.py: gen_eqs); each is proved by computation, so it cannot drift from\n"
+            "   the definition. *)\n" + head)
+    text += "\n".join("Notation %s_ := (%s P Orc A timeout stuck)." % (n, n) for n in names) + "\n"
+    text += "\n".join("Notation %s_ := %s." % kv for kv in helpers.items()) + "\n\n"
+    text += "\n".join(lemmas(body, helpers, False)) + "\nEnd Eqs.\n"
+    open(os.path.join(vlib.COQ, "State", "EvalRestoreEqs.v"), "w").write(text)
+    # expression level
+    body = src[src.index("Fixpoint eval (fuel : nat)"):src.index("End Expr.")]
+    helpers = {'truthy_k': '(truthy_k A stuck)', 'nth_k': '(nth_k A stuck)', 'subscript_k': '(subscript_k A stuck)',
+               'contains_k': '(contains_k A stuck)', 'builtin_method_k': '(builtin_method_k A stuck)',
+               'glob_get': '(glob_get P)'}
+    text = ("(* Unfolding equations of the expression-level interpreter functions, produced mechanically from the\n"
+            "   text of EvalRestoreSem.v (props/state_common.py: gen_eqs); each is proved by computation.  Used by the\n"
+            "   parametricity proof (EvalRestoreParam.v). *)\n" + head +
+            "Variable blk : env -> list stmt -> st -> (env -> st -> A) -> (val -> env -> st -> A) -> "
+            "(val -> env -> st -> A) -> A.\n")
+    text += "\n".join("Notation %s_ := (%s P Orc A timeout stuck blk)." % (n, n) for n in names[:10]) + "\n"
+    text += "\n".join("Notation %s_ := %s." % kv for kv in helpers.items()) + "\n\n"
+    text += "\n".join(lemmas(body, helpers, True)) + "\nEnd Eqs.\n"
+    open(os.path.join(vlib.COQ, "State", "EvalRestoreEqsExpr.v"), "w").write(text)
